@@ -112,6 +112,16 @@ def build_cases(ck, maxk):
             for n in range(0, k + 2):
                 add("of_keylist_batched_%d" % n, k, {"A": {"of(k, %d)" % n: pats}, "condition": "A"},
                     (lambda n: (lambda v: t_of(n, v)))(n), docs, vecs)
+            # the other batched forms: a regex set (all members regexes), case-insensitive needles
+            # (one automaton), and the same under `not`
+            rpat = ["?" + (("a", "b", "^a", "ab$")[i] if b == "t" else ("x", "y", "^x", "z$")[i]) for i, b in enumerate(bits)]
+            ipat = ["i" + p.upper() for p in pats]
+            for tag, pp in (("regexset", rpat), ("ci", ipat)):
+                add("all_keylist_%s" % tag, k, {"A": {"all(k)": pp}, "condition": "A"}, t_and, docs, vecs)
+                add("not_all_keylist_%s" % tag, k, {"A": {"all(k)": pp}, "condition": "not A"}, lambda v: t_not(t_and(v)), docs, vecs)
+                for n in range(0, k + 2):
+                    add("of_keylist_%s_%d" % (tag, n), k, {"A": {"of(k, %d)" % n: pp}, "condition": "A"},
+                        (lambda n: (lambda v: t_of(n, v)))(n), docs, vecs)
             # unbatched: one plain needle and regexes (at most one needle per batch, regex singly)
             if k == 2:
                 upats = [pats[0], "?" + ("a" if bits[1] == "t" else "x")]
